@@ -37,6 +37,8 @@ def new_interp(prog, poll_budget=1, runtime='ActorRuntime'):
                     if eff is not None:
                         eff(I, st)
                     return Opaque('State', ident='the-state')
+            if name in ('handle', 'handle_serialized') and len(args) > 2:
+                st.emit('CBARG', name, args[2])   # which message this handler invocation was given (C02: the dequeued one)
             return I.ret(st, I.user_future(name, ok_value=okv))
         return fn
     for cb in CALLBACKS:
